@@ -184,6 +184,18 @@ CHECKS["C15"] = {
             "sequential per step, concurrency comes from the I-level check and the stress run",
     "technique": "TLC design check of consolidator+forwarder + TLC trace validation of scheduled (virtual time) and stressed (real time) runs",
 }
+CHECKS["C16"] = {
+    "text": "Sender.tla models the socket sender's Run / innerRun / cleanup label by label (with the variables sink, streamCancel, stream, "
+            "errs kept by name), composed with the CompletionProp monitor: TLC checks every interleaving of 3-4 streams, 2 streams per "
+            "connection and <= 4 faults, and refutes the code as found (nil dereference; overwritten stream never answered). "
+            "TLC-generated fault schedules drive the real sender and 12 real backend variants over in-memory transports under virtual "
+            "time; TLC validates the traces: one callback per request, with an error whenever a batch did not get through, no panic, "
+            "answered by the end of the retry window, and a further request with a fresh context is answered after recovery.",
+    "design_ref": "6/C16",
+    "note": "HTTP backends are not modelled at I-level (their batch goroutine / collector structure is exercised by the schedules only); the "
+            "real MetricFlusher on top is covered by C01/C04 (healthy transport) and by the fresh request of the epilogue here",
+    "technique": "TLC design check of the sender model + TLC trace validation of real sender/backends under TLC-generated fault schedules",
+}
 NOT_APPLICABLE = [{"property_id": p, "reason": "check not built yet (build in progress; see DESIGN.md Appendix B for the order)"}
                   for p in ALL if p not in CHECKS]
 ENGINES[0]["serves_properties"] = sorted(CHECKS)
